@@ -67,6 +67,11 @@ def ramp_update(ck, prog):
             ck.oblige('C04.ramp.accept.stored', p, z3.Or(g('future_amp') != nf, g('future_amp_block') != nb, g('initial_amp_block') != h), 'the stored ramp is the requested one, starting now')
             lo = z3.If(ia <= fa, ia, fa); hi = z3.If(ia <= fa, fa, ia)
             ck.oblige('C04.ramp.accept.start_is_current', p, z3.Or(cur < lo, cur > hi), 'the new ramp starts at the current interpolated amplification')
+            q = z3.Int('q_ramp_spec'); rng = z3.If(fa >= ia, fa - ia, ia - fa)
+            spec = [z3.Implies(h < fbk, z3.And(q * (fbk - ib) <= rng * (h - ib), (q + 1) * (fbk - ib) > rng * (h - ib)))]
+            want = z3.If(h >= fbk, fa, z3.If(fa >= ia, ia + q, ia - q))
+            ck.oblige('C04.ramp.accept.start_exact', p, cur != want, 'the new ramp starts exactly at the interpolated amplification of the stored ramp at this block (also while that ramp is still in progress)', lemmas=spec)
+            ck.oblige('C04.ramp.accept.factor_of_effective', p, z3.And(nf > want, nf > MAX_CHANGE * want), 'the factor-10 limit is measured against the effective amplification', lemmas=spec)
             ck.oblige('C18.trio.ramp.valid', p, z3.Or(g('future_amp') < MIN_AMP, g('future_amp') > MAX_AMP, g('initial_amp') < MIN_AMP, g('initial_amp') > MAX_AMP), 'amplification stays within [1, 10^6]')
         elif p.err:
             ck.oblige('C04.ramp.reject.nochange', p, len(p.world.writes) != 0, 'a rejected ramp changes nothing')
